@@ -853,18 +853,83 @@ struct Binder {
     batches: Vec<Vec<u16>>,
     big: Vec<u16>,
     /// index-based getters are compared for every index when the registry holds at most this many
-    /// tokens; above, for the indices around every bucket edge and both ends
+    /// tokens; above, for the indices around the edges of the first and last buckets and both ends
     full_index_scan_up_to: usize,
+    /// `Some(k)`: batches the model predicts to be ACCEPTED are offered only at depth < k (an
+    /// accepted `bind_tokens` next to 10 000 bound tokens costs about 7 s)
+    accepted_batches_below_depth: Option<usize>,
 }
 
 struct BindInst {
     e: Env,
     c: Address,
     book: Book,
+    rev: BTreeMap<Address, u16>,
     fillers: usize,
 }
 
+/// Storage layout of the token binder, used ONLY to construct the 9 998-token capacity seed
+/// (through the public API that seed costs minutes: `bind_tokens` is quadratic in the number of
+/// bound tokens). The layout is validated before use: `Binder::direct_seed_is_faithful` builds a
+/// 250-token state both ways and compares the canonical storage digests; if they differ (the
+/// library changed its layout) the capacity world is skipped with a note instead of judged.
+#[soroban_sdk::contracttype]
+enum TbKey {
+    TokenBucket(u32),
+    TotalCount,
+}
+
+/// Seeds with more fillers than this are written directly into contract storage.
+const DIRECT_SEED_ABOVE: usize = 2000;
+
 impl Binder {
+    fn build(&self, fillers: usize, direct: bool) -> (BindInst, BTreeSet<u16>) {
+        let e = envx::mk_env(START);
+        let c = e.register(wrap::BinderWrap, ());
+        let mut book = Book::new();
+        for x in &self.universe {
+            book.gen(&e, *x);
+        }
+        let mut m = BTreeSet::new();
+        let mut batch: SVec<Address> = SVec::new(&e);
+        let mut bucket_no = 0u32;
+        let chunk = if direct { BINDER_BUCKET } else { MAX_BATCH };
+        for k in 0..fillers {
+            let id = 100 + k as u16;
+            book.gen(&e, id);
+            m.insert(id);
+            batch.push_back(book.a(id));
+            if batch.len() as usize == chunk || k + 1 == fillers {
+                if direct {
+                    e.as_contract(&c, || e.storage().persistent().set(&TbKey::TokenBucket(bucket_no), &batch));
+                    bucket_no += 1;
+                } else {
+                    seed_call(&e, &c, "bind_tokens", (batch.clone(),).into_val(&e));
+                }
+                batch = SVec::new(&e);
+            }
+        }
+        if direct {
+            e.as_contract(&c, || e.storage().persistent().set(&TbKey::TotalCount, &(fillers as u32)));
+        }
+        if let Some(n) = self.big.iter().max() {
+            for x in POOL..POOL + *n {
+                book.gen(&e, x);
+            }
+        }
+        let rev: BTreeMap<Address, u16> = book.fwd.iter().map(|(k, a)| (a.clone(), *k)).collect();
+        (BindInst { e, c, book, rev, fillers }, m)
+    }
+
+    /// Does writing the buckets directly give exactly the storage `bind_tokens` gives?
+    fn direct_seed_is_faithful(&self) -> bool {
+        let (a, _) = self.build(250, false);
+        let (b, _) = self.build(250, true);
+        let same = envx::storage_digest(&a.e, false) == envx::storage_digest(&b.e, false);
+        let n: Option<SVec<Address>> = getv(&b.e, &b.c, "linked_tokens", no_args(&b.e));
+        same && n.map(|v| v.len()) == Some(250)
+    }
+
     fn call(&self, i: &BindInst, op: &BindOp) -> bool {
         let e = &i.e;
         let sv = |l: &mut dyn Iterator<Item = u16>| -> SVec<Address> {
@@ -948,8 +1013,7 @@ impl Binder {
         let e = &i.e;
         let mut n = 0u64;
         let v: SVec<Address> = getv(e, &i.c, "linked_tokens", no_args(e)).ok_or_else(|| Violation::new("getter", "linked_tokens failed".into()))?;
-        // reverse lookup through a map (the list may hold thousands of addresses)
-        let rev: BTreeMap<Address, u16> = i.book.fwd.iter().map(|(k, a)| (a.clone(), *k)).collect();
+        let rev = &i.rev;
         let mut listed: Vec<u16> = vec![];
         for a in v.iter() {
             listed.push(*rev.get(&a).ok_or_else(|| Violation::new("outside-universe", "linked_tokens contains an address that was never bound".into()))?);
@@ -987,14 +1051,15 @@ impl Binder {
             (0..count).collect()
         } else {
             let mut s: BTreeSet<u32> = BTreeSet::new();
-            let mut edge = 0u32;
-            while edge <= count {
+            // bucket edges of the first two and the last three buckets
+            let b = BINDER_BUCKET as u32;
+            let last_edge = (count / b) * b;
+            for edge in [0, b, 2 * b, last_edge.saturating_sub(2 * b), last_edge.saturating_sub(b), last_edge] {
                 for d in [edge.saturating_sub(2), edge.saturating_sub(1), edge, edge + 1] {
                     if d < count {
                         s.insert(d);
                     }
                 }
-                edge += BINDER_BUCKET as u32;
             }
             for d in [count.saturating_sub(2), count.saturating_sub(1)] {
                 s.insert(d);
@@ -1038,34 +1103,11 @@ impl World for Binder {
     }
 
     fn fresh(&self, seed: usize) -> (BindInst, BTreeSet<u16>) {
-        let e = envx::mk_env(START);
-        let c = e.register(wrap::BinderWrap, ());
-        let mut book = Book::new();
-        for x in &self.universe {
-            book.gen(&e, *x);
-        }
-        let fillers = self.seeds[seed];
-        let mut m = BTreeSet::new();
-        let mut batch: SVec<Address> = SVec::new(&e);
-        for k in 0..fillers {
-            let id = 100 + k as u16;
-            book.gen(&e, id);
-            m.insert(id);
-            batch.push_back(book.a(id));
-            if batch.len() as usize == MAX_BATCH || k + 1 == fillers {
-                seed_call(&e, &c, "bind_tokens", (batch.clone(),).into_val(&e));
-                batch = SVec::new(&e);
-            }
-        }
-        if let Some(n) = self.big.iter().max() {
-            for x in POOL..POOL + *n {
-                book.gen(&e, x);
-            }
-        }
-        (BindInst { e, c, book, fillers }, m)
+        let n = self.seeds[seed];
+        self.build(n, n > DIRECT_SEED_ABOVE)
     }
 
-    fn ops(&self, i: &BindInst, _m: &BTreeSet<u16>, d: usize) -> Vec<BindOp> {
+    fn ops(&self, i: &BindInst, m: &BTreeSet<u16>, d: usize) -> Vec<BindOp> {
         let mut v = vec![];
         for x in &self.universe {
             v.push(BindOp::Bind(*x));
@@ -1074,7 +1116,13 @@ impl World for Binder {
             v.push(BindOp::Unbind(x));
         }
         for l in &self.batches {
-            v.push(BindOp::Batch(l.clone()));
+            let op = BindOp::Batch(l.clone());
+            if let Some(k) = self.accepted_batches_below_depth {
+                if d >= k && self.expect(m, &op).ok == Some(true) {
+                    continue;
+                }
+            }
+            v.push(op);
         }
         if d <= 1 {
             for n in &self.big {
@@ -1144,6 +1192,7 @@ fn binder_worlds(tier: Tier) -> Vec<(Binder, usize)> {
                 batches: vec![vec![0, 1], vec![1, 0], vec![2, 3], vec![0, 1, 2], vec![0, 0], vec![]],
                 big: vec![200, 201],
                 full_index_scan_up_to: 1000,
+                accepted_batches_below_depth: None,
             },
             tier.pick(5, 7),
         ),
@@ -1155,6 +1204,7 @@ fn binder_worlds(tier: Tier) -> Vec<(Binder, usize)> {
                 batches: vec![vec![0, 1], vec![0, 1, 2], vec![1, 1]],
                 big: vec![],
                 full_index_scan_up_to: 1000,
+                accepted_batches_below_depth: None,
             },
             tier.pick(3, 4),
         ),
@@ -1166,6 +1216,7 @@ fn binder_worlds(tier: Tier) -> Vec<(Binder, usize)> {
                 batches: vec![vec![0, 1], vec![0, 1, 2]],
                 big: vec![],
                 full_index_scan_up_to: 0,
+                accepted_batches_below_depth: Some(tier.pick(0, 2)),
             },
             tier.pick(2, 3),
         ),
@@ -1175,21 +1226,6 @@ fn binder_worlds(tier: Tier) -> Vec<(Binder, usize)> {
 // ==========================================================================================
 
 pub fn run(tier: Tier, r: &mut Runner) {
-    if std::env::var("C20B_TIME").is_ok() {
-        for n in [1000usize, 3000, 9998] {
-            let w = Binder { name: "t", seeds: vec![n], universe: vec![0, 1, 2], batches: vec![], big: vec![], full_index_scan_up_to: 0 };
-            let t = std::time::Instant::now();
-            let (i, m) = w.fresh(0);
-            println!("fresh {n}: {:?}", t.elapsed());
-            let t = std::time::Instant::now();
-            let _ = w.call(&i, &BindOp::Bind(0));
-            println!("bind: {:?}", t.elapsed());
-            let t = std::time::Instant::now();
-            let _ = envx::storage_digest(&i.e, false);
-            println!("digest: {:?} {}", t.elapsed(), m.len());
-        }
-        return;
-    }
     let wall = tier.pick(20, 240);
     for (w, d) in cti_worlds(tier) {
         r.world(&w, &Bounds::new(d, wall));
@@ -1198,6 +1234,15 @@ pub fn run(tier: Tier, r: &mut Runner) {
         r.world(&w, &Bounds::new(d, wall));
     }
     for (w, d) in binder_worlds(tier) {
+        if r.exploring() && w.seeds.iter().any(|n| *n > DIRECT_SEED_ABOVE) && !w.direct_seed_is_faithful() {
+            if let Some(rep) = r.report() {
+                rep.note(&format!(
+                    "{}: SKIPPED — the capacity seed is written directly into storage and the token binder's storage layout no longer matches (a 250-token state built through bind_tokens differs); exact enforcement of MAX_TOKENS was not explored",
+                    w.name
+                ));
+            }
+            continue;
+        }
         r.world(&w, &Bounds::new(d, wall));
     }
     if let Some(rep) = r.report() {
